@@ -3,6 +3,7 @@ import re
 
 import an
 import chunkloop
+import core
 from an import P
 from props import C07
 from terms import show
@@ -17,7 +18,8 @@ def run(ctx, chk):
         "Dna: mask = unmask is an involution toggling the case of A,C,G,T,N and fixing gap and pad. At sequence level MaskableMut for Seq's "
         "mask and unmask loops have the per-chunk in-place shape store(chunk, to_bits(op(unsafe_from_bits(load_le(chunk))))) over an exact "
         "BITS-wide chunking with op = the same-named symbol operation (sibling cross-check), so they apply position-wise and keep the length; "
-        "to_mask/to_unmask are the to_owned-then-op defaults. Commutation with reverse follows from position-wise application.")
+        "to_mask/to_unmask are the to_owned-then-op defaults. Commutation with reverse and complement at sequence level follows from position-wise "
+        "application on both sides: the sequence-level comp/rev/revcomp loop rows of C07 are imported.")
     chk.not_decided = ["bitvec load_le/store on 5-bit chunks straddling words (model rows)"]
     chk.assumptions = ["bitvec model rows", "documented display characters (oracle/alphabets.json via C05)"]
     n = 0
@@ -94,5 +96,7 @@ def run(ctx, chk):
                 n += bool(chunkloop.symbol_loop(chk, cfg, b, "S-maskloop", "MaskableMut::%s for Seq" % op, SB, op, "MaskableMut"))
         C07.default_then(chk, cfg, "Maskable", "to_mask", ("MaskableMut", "mask"), "S-to")
         C07.default_then(chk, cfg, "Maskable", "to_unmask", ("MaskableMut", "unmask"), "S-to")
+        # "commutes with complement and reverse" at sequence level rests on the sequence-level complement / reverse loops (C07's rows)
+        core.import_rows(chk, cfg, "C07", "props.C07", ("S-rev", "S-comp", "S-to"))
     chk.floor("mask tables and loops", n, 4 * max(1, len(chk.configs)))
     chk.coverage_exhaustive = True
